@@ -282,6 +282,11 @@ class _ClientLogSink:
             _write_message_batch(writer, schema, msg, server_id=self._server_id)
         self._buffer.clear()
 
+    def pending(self) -> list[Message]:
+        """Return (and clear) the messages buffered so far; used when a call fails before any writer exists."""
+        pending, self._buffer = self._buffer, []
+        return pending
+
     def reset(self) -> None:
         """Clear writer/schema references, reverting to buffer mode.
 
@@ -565,6 +570,21 @@ def _parse_request(
             fmt_kwargs(kwargs),
         )
     return method_name, kwargs
+
+
+def _write_collector_logs(writer: ipc.RecordBatchStreamWriter, out: OutputCollector | None) -> None:
+    """Write the client-log batches a collector gathered before its ``process()`` call failed.
+
+    A step that logs and then raises must still deliver those logs (ahead of
+    the error batch), as a unary method that logs and raises already does.
+    Data batches of the failed step are not written.
+    """
+    if out is None:
+        return
+    for ab in out.batches:
+        cm = ab.custom_metadata
+        if ab.batch.num_rows == 0 and cm is not None and cm.get(LOG_LEVEL_KEY) is not None:
+            writer.write_batch(ab.batch, custom_metadata=cm)
 
 
 def _flush_collector(
